@@ -193,12 +193,13 @@ class GhostList:
 class LoopSpec:
     """contract of one loop.  Subclass or instantiate with functions; `G` is per-path ghost state set by the unit."""
 
-    def __init__(self, name, invariant=None, variant=None, havoc=None, heap=(), const=(), at_back=None, at_iteration=None):
+    def __init__(self, name, invariant=None, variant=None, havoc=None, heap=(), const=(), at_back=None, at_iteration=None,
+                 at_havoc=None):
         self.name = name
         self._inv, self._var = invariant, variant
         self.havoc_names = dict(havoc or {})
         self.heap, self.const = tuple(heap), tuple(const)
-        self._at_back, self._at_iteration = at_back, at_iteration
+        self._at_back, self._at_iteration, self._at_havoc = at_back, at_iteration, at_havoc
         self.G = {}
         self.it = None
         self._v0 = None
@@ -250,6 +251,8 @@ class LoopSpec:
                 L[n].havoc(self.tag)
         if self.it is not None:
             self.it.havoc()
+        if self._at_havoc is not None:
+            self._at_havoc(self, L)       # contract-specific havoc of object fields the loop writes (e.g. self.x = GhostList)
         ctx().assume(_t(self.invariant(L, self._k())))
 
     def iteration(self, L):
